@@ -59,6 +59,24 @@ Theorem C02_sort_ties_str : forall es k, str_key k = true -> Forall (fun e => st
 Proof. intros es k. exact (stable_sort_stable StrKey str_key_trans es k). Qed.
 Print Assumptions C02_sort_ties_str.
 
+(* ... and that determines the result: ANY sorted arrangement of the entries that keeps every key class in input order
+   - i.e. the output of any stable sorting algorithm, such as Python's sorted - IS the model's sort *)
+Theorem C02_sort_stable_unique_int : forall es es',
+  Forall (fun e => int_key (fst e) = true) es -> Forall (fun e => int_key (fst e) = true) es' ->
+  StronglySorted (fun a b => key_leb (fst a) (fst b) = true) es' ->
+  (forall k, int_key k = true -> filter (fun x => key_eqv k (fst x)) es' = filter (fun x => key_eqv k (fst x)) es) ->
+  es' = stable_sort es.
+Proof. exact (sort_stable_unique IntKey int_key_total int_key_trans). Qed.
+Print Assumptions C02_sort_stable_unique_int.
+
+Theorem C02_sort_stable_unique_str : forall es es',
+  Forall (fun e => str_key (fst e) = true) es -> Forall (fun e => str_key (fst e) = true) es' ->
+  StronglySorted (fun a b => key_leb (fst a) (fst b) = true) es' ->
+  (forall k, str_key k = true -> filter (fun x => key_eqv k (fst x)) es' = filter (fun x => key_eqv k (fst x)) es) ->
+  es' = stable_sort es.
+Proof. exact (sort_stable_unique StrKey str_key_total str_key_trans). Qed.
+Print Assumptions C02_sort_stable_unique_str.
+
 (* DESC is exactly the reverse of the ascending sequence *)
 Theorem C02_desc_is_reverse : forall es, ordered true es = rev (ordered false es).
 Proof. reflexivity. Qed.
